@@ -299,6 +299,8 @@ func (api *API) mapEncodeStructFields(
 					ownKeys[keyType] = struct{}{}
 				}
 				_ = api.collectStructKeys(memberType, ownKeys)
+			} else if memberType.Kind() == reflect.Interface {
+				ownKeys[keyType] = struct{}{}
 			}
 
 			for _, k := range castedEleOut.Keys() {
@@ -368,8 +370,13 @@ func (api *API) collectStructKeys(structType reflect.Type, usedKeys map[string]s
 			if err == nil {
 				err = api.collectStructKeys(memberType, usedKeys, visitedTypes...)
 			}
+		case sField.settings.inlined && memberType.Kind() == reflect.Interface:
+			// the other keys of an inlined interface depend on the value, its type code is always there: a struct with a
+			// second owner of the type key (its own type code, another inlined member with a type code) can't be told
+			// apart from the map form of the struct with that member left out
+			err = occupy(keyType)
 		case sField.settings.inlined && memberType.Kind() != reflect.Map:
-			// an inlined interface: depends on the value
+			// no keys that are known by the type
 		default:
 			err = occupy(FieldKeyString(sField.name))
 		}
